@@ -169,6 +169,9 @@ def run(chk, facts, tier, only=None):
         chk.include(c08, "C08.R5", "C04.R5", facts)     # the value decoded at the supertype is a value *of* the supertype: nat read at int goes through deserialize_int
         import c07
         chk.include(c07, "C07.R3", "C04.R6", facts)     # a failed coercion under opt restores the whole decoder state, so the accepted subtype still decodes
+        chk.include(c08, "C08.R2", "C04.R7", facts)     # components are decoded at (expected, wire) of that component, never (expected, expected)
+        import c10
+        chk.include(c10, "C10.R6", "C04.R8", facts)     # variant payloads: the accessor follows the expected payload type, so null at opt T decodes
     if not only or only == "C04.R1":
         chk.run_rule("C04.R1", "checker rule table and decoder acceptance table agree in both directions",
                      lambda: rule_tables(chk, facts))
